@@ -275,3 +275,20 @@ Theorem C01_chunk_independence_parsed : forall B W chunks,
   same_parsed_parts (drive no_limits B chunks) (drive no_limits B [W]).
 Proof. exact chunk_independence_parsed. Qed.
 Print Assumptions C01_chunk_independence_parsed.
+
+(* ---- one level up (second sentence of the property): the parts the form parser obtains do not
+   depend on its read buffer size nor on short reads from the input stream.  reads_of models
+   formparser._chunk_iter over a stream that returns between 1 and min(buffer_size, k_i) bytes on
+   its i-th read; MultiPartParser.parse is the model's feed over those chunks. *)
+Theorem C01_formparser_read_schedule : forall B W fuel bs sched,
+  good_boundary B = true -> wf_oneshot B W = true ->
+  same_parsed_parts (drive no_limits B (reads_of fuel bs sched W)) (drive no_limits B [W]).
+Proof. exact formparser_read_schedule. Qed.
+Print Assumptions C01_formparser_read_schedule.
+
+Theorem C01_read_schedule_is_chunking : forall fuel bs sched data,
+  concat (reads_of fuel bs sched data) = data /\
+  ((1 <= bs)%nat -> (length data <= fuel)%nat ->
+   forall c, In c (reads_of fuel bs sched data) -> (1 <= length c <= bs)%nat).
+Proof. exact (fun fuel bs sched data => conj (reads_concat fuel bs sched data) (fun Hb Hl c => reads_sizes fuel bs sched data c Hb Hl)). Qed.
+Print Assumptions C01_read_schedule_is_chunking.
